@@ -89,7 +89,7 @@ def run(ctx):
             continue
         if "tool" in h.get("tags", []):
             # a (no-cache) target whose bin_output is also its input: an edit of the script must reach the dependants
-            fails, _ = H.clean_oracle(ctx, h, r["real"], "c13clean")
+            fails, _ = H.clean_oracle(ctx, h, r["real"], "c13clean", which="all")
             if fails:
                 cnt["oracle_failures"] += 1
                 small = H.truncate(h, fails[0]["build"] + 1)
